@@ -745,6 +745,7 @@ def ppo_probe(ctx):
     cases = [("instance", 8, 4, False, "instance-norm/minibatch<batch"),
              ("batch", 8, 8, False, "batch-norm/minibatch=batch"),
              (None, 8, None, True, "AMPPO-defaults(batch-norm, mini_batch_size=0.25)")]
+    controls_ok = 0
     for norm, bs, mbs, dflt, name in cases:
         try:
             st = ppo_first_ratio(ctx, norm, bs, mbs, dflt)
@@ -771,8 +772,12 @@ def ppo_probe(ctx):
         # through the exponent the code formed, so the exponent itself is checked to be the model's 0
         dev = float((st["ratio"] - 1.0).abs().max())
         ctx.case(("ppo", name, tuple(st["ratio"].tolist())))
+        if dev <= 1e-4 and not dflt:
+            controls_ok += 1
         if dev > 1e-4:
-            bn = dflt or (norm == "batch" and (mbs is not None and mbs < bs))
+            # the BatchNorm/mini-batch explanation is only accepted when, in this very run, the same code gave ratio 1
+            # with instance normalisation (mini-batch < batch) and with batch normalisation on the full batch
+            bn = dflt and controls_ok == 2
             key = "ppo-first-ratio-not-one:batchnorm-minibatch" if bn else "ppo-first-ratio-not-one"
             ctx.violation(key, "the PPO probability ratio of the first mini-batch (weights unchanged) is not 1"
                           + (": the policy is in train mode with BatchNorm, whose statistics over the shuffled mini-batch differ from those of the rollout batch" if bn else ""),
@@ -933,15 +938,26 @@ def c13_case(ctx, kind, env_name, n, B0, W):
                 for t in range(1, min(T, T2) + 1):
                     d = abs(float(tf[j][t]) - vals[i][t])
                     worst = max(worst, d)
+                    if 1e-5 < d <= 3e-4:
+                        # float32 noise between decoder layouts ([B,W,·] during the search vs [B,1,·] when re-scoring); seen up to
+                        # 6e-5 on cvrptw (unnormalised time features).  A mis-aligned row/step gives deviations of order 0.1.
+                        ctx.count("teacher-forcing-dev-in(1e-5,3e-4]")
+                        continue
                     if d > 1e-5:
-                        if slot_conditioned(ctx, kind, env_name, pol, env, td):
-                            ctx.violation(f"beam-logp-slot-conditioned-policy:{kind}/{env_name}",
+                        # slot (beam position) in which the distribution of step t of final row i was computed
+                        row = i
+                        for tt in range(T - 1, t - 2, -1):
+                            row = int(tr.beam[tt]["bbi"][row])
+                        slot = row // B0
+                        if slot > 0 and slot_conditioned(ctx, kind, env_name, pol, env, td):
+                            ctx.violation(f"beam-logp-slot-conditioned-policy:{kind}/{env_name}:slot>0",
                                           "the policy's distribution depends on the beam slot of a row (PolyNet strategy vector); beam search moves partial "
-                                          "solutions between slots, so a returned beam's per-step log-probs are not those any single strategy assigns along it",
-                                          {**wit, "row": i, "step": t, "beam": vals[i][t], "teacher_forcing_slot0": float(tf[j][t]), "sequence": seq[i]})
+                                          "solutions between slots, so a returned beam's per-step log-probs are not those any single strategy assigns along it "
+                                          "(this step was computed in a slot > 0, evaluate mode uses strategy 0)",
+                                          {**wit, "row": i, "step": t, "slot": slot, "beam": vals[i][t], "teacher_forcing_slot0": float(tf[j][t]), "sequence": seq[i]})
                         else:
                             ctx.violation("beam-logp-not-policy", "a returned beam's per-step log-prob is not what the policy assigns along that sequence (teacher forcing)",
-                                          {**wit, "row": i, "step": t, "beam": vals[i][t], "teacher_forcing": float(tf[j][t]), "sequence": seq[i]})
+                                          {**wit, "row": i, "step": t, "slot": slot, "beam": vals[i][t], "teacher_forcing": float(tf[j][t]), "sequence": seq[i]})
                         return
                 if vals[i][0] != 0.0:
                     ctx.disagreement("beam: forced first move log-prob ≠ 0", {**wit, "row": i})
@@ -1071,9 +1087,13 @@ C13_THEOREMS = [
     Theorem("Rl4co.Decode.best_is_max", "proved", "_select_best_beam: returned row is one of the instance's beams and its reward is the maximum over them"),
     Theorem("Rl4co.Decode.beamDecode_reach", "proved", "policy(…, decode_type='beam_search') only visits reachable states when topk is correct, for every max_steps"),
     Theorem("Rl4co.Decode.validTop_sound", "proved", "the executable check run on every recorded topk outcome implies ValidTop"),
-    Theorem("Rl4co.Decode.beams_mask_confined", "partial",
-            "beam-search half of beams_feasible: forced first move excepted, every beam is a mask-confined run (given per-step finite expansions and masked ⇒ −inf)"),
-    Theorem("Rl4co.Decode.beams_mask_confined_counterexample", "proved", "¬ (every beam incl. its forced start is mask-confined): start nodes are not constrained by the mask (OP finding)"),
+    Theorem("Rl4co.Decode.beams_mask_confined", "proved",
+            "forced first move excepted, every beam is a mask-confined run (given per-step finite expansions and masked ⇒ −inf)"),
+    Theorem("Rl4co.Decode.beams_mask_confined_full", "proved",
+            "beam-search half of beams_feasible: forced first move INCLUDED, every beam is a mask-confined run from reset, under the interface hypothesis that the "
+            "start rule returns nodes the reset mask admits (OP: C12 op_starts_feasible after upstream fix d560d2a)"),
+    Theorem("Rl4co.Decode.beams_mask_confined_counterexample", "proved",
+            "without that start-rule hypothesis the statement is false (beam search itself does not constrain the forced starts; OP before d560d2a)"),
     Theorem("Rl4co.Decode.logp_is_policy_slot_counterexample", "proved", "¬ (logp_is_policy for slot-conditioned policies): PolyNet finding"),
     Theorem("Rl4co.Decode.logp_is_policy_slot_partial", "partial", "for slot-independent π it is logp_is_policy"),
 ]
